@@ -138,6 +138,23 @@ Theorem C10_wrap_file :
 Proof. exact wrap_file_other. Qed.
 Print Assumptions C10_wrap_file.
 
+(* the destination STATE: whatever file is at the destination path beforehand (absent, shorter,
+   longer than what is written) the outcome is the same -- os.Create truncates -- and on success
+   the destination is exactly pragma ++ header ++ source ++ index, nothing after it *)
+Theorem C10_wrap_file_destination_state :
+  forall hdrdec srt o x d d',
+    wrap_file_with hdrdec srt o (mkfs (Some x) (DOther d)) = wrap_file_with hdrdec srt o (mkfs (Some x) (DOther d')).
+Proof. exact wrap_file_dest_irrelevant. Qed.
+Print Assumptions C10_wrap_file_destination_state.
+
+(* ... and when the destination path IS the source path the source has been emptied before it is
+   read: the call fails and leaves an empty file, for every source *)
+Theorem C10_wrap_file_same_path :
+  forall hdrdec srt o x,
+    wrap_file_with hdrdec srt o (mkfs (Some x) DSame) = (Err EOther, mkfs (Some []) DSame).
+Proof. exact wrap_file_same. Qed.
+Print Assumptions C10_wrap_file_same_path.
+
 (* the section loop of LoadIndex terminates on every input (the model's fuel never runs out) *)
 Theorem C10_wrap_terminates :
   forall hdrdec srt o x, wrap_bytes_with hdrdec srt o x <> Err EFuel.
